@@ -198,6 +198,11 @@ func (_this *Context) BeginMap() {
 }
 
 func (_this *Context) NotifyKey(key interface{}) {
+	if v, ok := key.(negint); ok && v != 0 {
+		// Normalize like every other integer form (negint(0) is negative zero).
+		key = new(big.Int).Neg(new(big.Int).SetUint64(uint64(v)))
+	}
+
 	switch v := key.(type) {
 	case int:
 		if v >= 0 {
